@@ -1018,6 +1018,26 @@ func (fr *frame) builtin(name string, c *ssa.Call, args []Val) Val {
 			return Val{K: KSlice, S: fr.siteName(c), Len: -1}
 		}
 		a0, a1 := args[0], args[1]
+		if a1.K == KStr && len(a1.S) <= 256 {
+			// append(bytes, str...): the bytes of a known string
+			elems := make([]Val, len(a1.S))
+			for i := range elems {
+				elems[i] = Val{K: KInt, I: big.NewInt(int64(a1.S[i])), Dep: a1.Dep}
+			}
+			if fr.in.OnAppend != nil && fr.in.collect {
+				fr.in.OnAppend(c, a1, elems, fr)
+			}
+			return fr.appendTo(c, a0, elems)
+		}
+		if a1.K == KSym && isStringType(c.Call.Args[1].Type()) && a0.K == KSlice && a0.Len >= 0 && strings.Contains(a0.S, "#") {
+			// append(bytes, str...) of an unknown string: its bytes, from the
+			// current end on
+			if fr.in.OnAppend != nil && fr.in.collect {
+				fr.in.OnAppend(c, a1, nil, fr)
+			}
+			fr.storeFrom(a0.S, a0.Off+a0.Len, symVal(a1.S+"[*]", a1.Dep))
+			return Val{K: KSlice, S: a0.S, Len: -1, Off: a0.Off}
+		}
 		if fr.in.OnAppend != nil && fr.in.collect {
 			var elems []Val
 			if a1.K == KSlice && a1.Len >= 0 && a1.Len <= 64 {
@@ -1089,6 +1109,20 @@ func (fr *frame) builtin(name string, c *ssa.Call, args []Val) Val {
 				et = st.Elem()
 			}
 			n := -1
+			if src.K == KStr && len(src.S) <= 256 {
+				// copy(bytes, str): the bytes of a known string
+				n = len(src.S)
+				if dst.Len >= 0 && dst.Len < n {
+					n = dst.Len
+				}
+				if dst.Len >= 0 {
+					for i := 0; i < n; i++ {
+						fr.store(Val{K: KPtr, S: fmt.Sprintf("%s[%d]", dst.S, dst.Off+i)}, Val{K: KInt, I: big.NewInt(int64(src.S[i])), Dep: src.Dep}, nil)
+					}
+					return int64Val(int64(n))
+				}
+			}
+			n = -1
 			if dst.Len >= 0 && src.K == KSlice && src.Len >= 0 {
 				n = dst.Len
 				if src.Len < n {
@@ -1099,8 +1133,12 @@ func (fr *frame) builtin(name string, c *ssa.Call, args []Val) Val {
 				for i := 0; i < n; i++ {
 					fr.store(Val{K: KPtr, S: fmt.Sprintf("%s[%d]", dst.S, dst.Off+i)}, fr.load(fmt.Sprintf("%s[%d]", src.S, src.Off+i), et), nil)
 				}
+				return int64Val(int64(n))
 			} else if src.K == KSlice {
 				fr.store(Val{K: KPtr, S: dst.S + "[*]"}, fr.load(src.S+"[*]", et), nil)
+				if n >= 0 {
+					return int64Val(int64(n))
+				}
 			} else {
 				fr.store(Val{K: KPtr, S: dst.S + "[*]"}, top, nil)
 			}
@@ -1267,6 +1305,48 @@ func (fr *frame) pureCall(fn *ssa.Function, args []Val) (Val, bool) {
 		if allKnown && args[0].K == KStr && args[1].K == KInt && args[1].I.IsInt64() && args[1].I.Int64() >= 0 && args[1].I.Int64()*int64(len(args[0].S)) <= 4096 {
 			return Val{K: KStr, S: strings.Repeat(args[0].S, int(args[1].I.Int64())), Dep: dep}, true
 		}
+	case "strings.Split", "strings.SplitN", "strings.Fields", "strings.SplitAfter":
+		if !allKnown || args[0].K != KStr {
+			return Val{}, false
+		}
+		var parts []string
+		switch fn.Name() {
+		case "Fields":
+			parts = strings.Fields(args[0].S)
+		case "Split":
+			if args[1].K != KStr {
+				return Val{}, false
+			}
+			parts = strings.Split(args[0].S, args[1].S)
+		case "SplitAfter":
+			if args[1].K != KStr {
+				return Val{}, false
+			}
+			parts = strings.SplitAfter(args[0].S, args[1].S)
+		case "SplitN":
+			if args[1].K != KStr || args[2].K != KInt || !args[2].I.IsInt64() {
+				return Val{}, false
+			}
+			parts = strings.SplitN(args[0].S, args[1].S, int(args[2].I.Int64()))
+		}
+		if parts == nil {
+			return Val{K: KNil}, true
+		}
+		if len(parts) > 256 {
+			return Val{}, false
+		}
+		base := fmt.Sprintf("strings.%s#%q", fn.Name(), args[0].S)
+		if len(args) > 1 {
+			base += "/" + args[1].String()
+		}
+		if len(args) > 2 {
+			base += "/" + args[2].String()
+		}
+		fr.allocate(base)
+		for i, part := range parts {
+			fr.store(Val{K: KPtr, S: fmt.Sprintf("%s[%d]", base, i)}, Val{K: KStr, S: part, Dep: dep}, nil)
+		}
+		return Val{K: KSlice, S: base, Len: len(parts), Dep: dep}, true
 	case "strings.Join":
 		if args[1].K == KStr {
 			if elems, ok := fr.sliceElems(args[0], types.Typ[types.String]); ok {
